@@ -25,6 +25,7 @@ LEVEL_TEXT = (
     "statement-list positions offered by the interpreter's own grammar x 12 import forms; random projects beyond."
 )
 LEVEL_NOTE = "Trusts R-SCAN (refmodel/scan.py) and Python's ast module; own-ancestor-package imports are exempt as the property says."
+LEVEL_TEXT += ' Import forms include one statement that imports a sub module and a plain name of the same package (absolute and relative).'
 RULE = (
     "an evaluation = one import statement (alias) checked against the built graph; a case = one (nesting path, import form) pair or one "
     "random project; non-trivial = the statement names an internal scanned module other than the importer's ancestors (an edge is required); "
